@@ -352,3 +352,22 @@ package version
 //@   loop 1 invariant[len] all(k, "FamilyID", visited(families, k) ==> (has(families, k) && len(result[k]) == len(families[k])))
 //@   loop 1 invariant[fresh_lists] all(k, "FamilyID", visited(families, k) ==> (len(result[k]) == 0 || fresh(result[k])))
 //@ end
+
+//@ # ---- retiring the inputs of a compaction (C03): the record that installs the compaction output also removes every input
+//@ # file, each from the level it lives on (level inputs at the compaction level, overlapped inputs one level up). An input
+//@ # deleted at the wrong level stays live next to the output that already contains its data: readers see it twice --------
+//@ predicate delAt(c *Compaction, k int, lvl int, fn table.FileNumber) bool = typeis(cast(c.editLog, "*editLog").logs[k], "*deleteFile") && allocated(cast(c.editLog, "*editLog").logs[k]) && int(cast(cast(c.editLog, "*editLog").logs[k], "*deleteFile").level) == lvl && cast(cast(c.editLog, "*editLog").logs[k], "*deleteFile").fileNumber == fn
+//@ func Compaction.MarkInputDeletes
+//@   prop C03
+//@   arith math
+//@   requires c.level >= 0 && c.level < 1000 && c.editLog != nil && typeis(c.editLog, "*editLog") && forall(i, 0, len(c.levelInputs), c.levelInputs[i] != nil) && forall(i, 0, len(c.levelUpInputs), c.levelUpInputs[i] != nil)
+//@   modifies cast(c.editLog, "*editLog").logs
+//@   ensures[one_delete_record_per_input] len(cast(c.editLog, "*editLog").logs) == old(len(cast(c.editLog, "*editLog").logs)) + len(c.levelInputs) + len(c.levelUpInputs)
+//@   ensures[level_inputs_are_deleted_at_the_compaction_level] forall(i, 0, len(c.levelInputs), delAt(c, old(len(cast(c.editLog, "*editLog").logs)) + i, c.level, c.levelInputs[i].fileNumber))
+//@   ensures[overlapped_inputs_are_deleted_one_level_up] forall(i, 0, len(c.levelUpInputs), delAt(c, old(len(cast(c.editLog, "*editLog").logs)) + len(c.levelInputs) + i, c.level + 1, c.levelUpInputs[i].fileNumber))
+//@   loop 1 invariant rangeindex + 1 <= len(c.levelInputs) && len(cast(c.editLog, "*editLog").logs) == old(len(cast(c.editLog, "*editLog").logs)) + rangeindex + 1
+//@   loop 1 invariant forall(i, 0, rangeindex + 1, delAt(c, old(len(cast(c.editLog, "*editLog").logs)) + i, c.level, c.levelInputs[i].fileNumber))
+//@   loop 2 invariant rangeindex + 1 <= len(c.levelUpInputs) && len(cast(c.editLog, "*editLog").logs) == old(len(cast(c.editLog, "*editLog").logs)) + len(c.levelInputs) + rangeindex + 1
+//@   loop 2 invariant forall(i, 0, len(c.levelInputs), delAt(c, old(len(cast(c.editLog, "*editLog").logs)) + i, c.level, c.levelInputs[i].fileNumber))
+//@   loop 2 invariant forall(i, 0, rangeindex + 1, delAt(c, old(len(cast(c.editLog, "*editLog").logs)) + len(c.levelInputs) + i, c.level + 1, c.levelUpInputs[i].fileNumber))
+//@ end
